@@ -144,6 +144,16 @@ CLAIMS = {
             'with rejecting examples. NOT covered by the theorem: aliasing through shared objects / numpy views and repeatability of values -- bitwise-snapshot oracle only.',
             'Trusted: Coq kernel (closed under the global context); the effect translator is a conservative syntactic analysis, not a semantics of Python; its adequacy is validated only by the oracle.',
             'Coq proof by computation over a regenerated effect table + bitwise-snapshot oracle under random query interleavings'),
+    'C16': ('proof',
+            'PARTIAL. Theorems C16_fd_matrix(_copy_id), C16_fd_error(_1e6), C16_fd_entry_error, C16_pairs, C16_assembly_fd, C16_zero_residual '
+            '(coq/props/C16.v) over the hand-written executable model lib/FDModel.v of BaseEdge._calc_jacobian / calc_jacobians: for ANY error '
+            'function, number of vertices and pose kinds the loop returns, column by column, exactly the forward difference (err(perturbed) - err)/h with '
+            'the stated perturbed state and restores the poses (induction over range(dim) and the slot list); Taylor-Lagrange bound |FD - phi\'(0)| <= M h / 2 '
+            '(Coquelicot), instantiated for h = 1e-6; an n-slot edge contributes J_i^T Omega J_j for every i <= j and the assembled system is the Gauss-Newton '
+            'system of those Jacobians (assembly_correct instantiated); a state with all errors zero is a fixed point whatever the Jacobians. NOT proved: '
+            'cancellation in doubles at h = 1e-6, the bound M per edge family, equality of numerical and analytic optima on noisy problems -- oracle tests.',
+            AX + 'Classical_Prop.classic additionally under the Taylor theorems (via Coquelicot); hand model validated by a bit-exact correspondence against BaseEdge.calc_jacobians.',
+            'Coq proof over hand-written model (induction, Taylor-Lagrange) + bit-exact correspondence + accuracy / paired-optimisation oracle'),
     'C17': ('proof',
             'Theorems C17_total, C17_iff, C17_refl, C17_near, C17_far, C17_structural (coq/props/C17.v) over the hand-written model '
             'lib/EqualsModel.v of the five equals methods with Python failure modes explicit (VRaise): for all well-formed poses, vertices, '
